@@ -735,11 +735,8 @@ def rule_destruct_once(ctx):
                                       "marks)" % chain[-1], e.loc())
                 continue
             # closures run by higher-order models are reached through their root function
-            root = b
-            while root.kind == "closure":
-                root = prog.body(root.j["root"])
             site_seen = set()
-            for p in ctx.paths(root.name):
+            for (root, p) in [(prog.body(rn), p) for rn in prog.path_roots(b.name) for p in ctx.paths(rn)]:
                 for i, e in enumerate(p.events):
                     if e.kind != "call" or e.target != f or e.bb != bi or (e.body is not b):
                         continue
@@ -1387,10 +1384,9 @@ def rule_dec_nonzero(ctx):
     prog = ctx.prog
     sites = prog.callers_of(DEC_STRONG)
     n = 0
-    for (b, bi, t, c) in sites:
-        root = b
-        while root.kind == "closure":
-            root = prog.body(root.j["root"])
+    # a site inside a closure or a refactoring helper is judged on the paths of every function it is read into
+    for (b, bi, rootname) in [(b, bi, rn) for (b, bi, t, c) in sites for rn in prog.path_roots(b.name)]:
+        root = prog.body(rootname)
         r.functions.add(root.name)
         done = False
         for p in ctx.paths(root.name):
@@ -1455,10 +1451,7 @@ def rule_stamp_modular(ctx):
     users = set()
     for src in STAMP_SOURCES:
         for (b, bi, t, c) in prog.callers_of(src):
-            root = b
-            while root.kind == "closure":
-                root = prog.body(root.j["root"])
-            users.add(root.name)
+            users.update(prog.path_roots(b.name))
     for f in sorted(users):
         r.functions.add(f)
         seen = set()
